@@ -392,6 +392,12 @@ func init() {
 			"distinct_nontrivial = distinct (entropy bits, address-count bucket, route multiset, reference usable)",
 		Assumptions: []string{"wallets whose purpose/coin key has a leading zero byte fall into the C14 known-finding class: there only cross-instance equality and key↔address consistency are checked", "KeystoreManager.ChangePubPassphrase is not reachable through WalletManager; different public passphrases are exercised by opening instances with different ones"},
 		Cases:       func(tier string, seed int64) int { return plans[tier] },
-		Run:         func(t *core.T) { c04Case(t) },
+		Run: func(t *core.T) {
+			if t.Index%6 == 5 {
+				c04TargetedCase(t) // wallets with a short scalar on the signing path (constructed, 1/256 each)
+				return
+			}
+			c04Case(t)
+		},
 	})
 }
